@@ -775,6 +775,20 @@ pub fn main(opts: &Opts) {
             Ok(n) if n == enc.len() => {}
             other => report.finding(Finding { kind: "violation", key: format!("size:{}", class), description: format!("serialized_size = {:?}, encoding has {} bytes", other.ok(), enc.len()), replay: json!({"property": prop, "module": "codec", "value": text}) }),
         }
+        // C20: the untyped value tree of a value is the value itself, in both directions
+        if oos.is_none() {
+            report.count("to_value_from_value");
+            match std::panic::catch_unwind(|| serde_amqp::to_value(&v)) {
+                Ok(Ok(w)) if w == v => {}
+                Ok(r) => report.finding(Finding { kind: "violation", key: "to-value:in-scope".into(), description: format!("to_value({}) = {}", &text[..text.len().min(200)], match r { Ok(w) => { let t = show(&w); t[..t.len().min(200)].to_string() } Err(e) => format!("{:?}", e) }), replay: json!({"property": prop, "module": "codec", "value": text, "to_value": true}) }),
+                Err(_) => report.finding(Finding { kind: "violation", key: "to-value:in-scope".into(), description: format!("to_value({}) panicked", &text[..text.len().min(200)]), replay: json!({"property": prop, "module": "codec", "value": text, "to_value": true}) }),
+            }
+            match std::panic::catch_unwind(|| serde_amqp::from_value::<Value>(v.clone())) {
+                Ok(Ok(w)) if w == v => {}
+                Ok(r) => report.finding(Finding { kind: "violation", key: if contains_described(&v) && r.is_err() { "from-value:described-composite-refused".into() } else { "from-value:in-scope".into() }, description: format!("from_value::<Value>({}) = {}", &text[..text.len().min(200)], match r { Ok(w) => { let t = show(&w); t[..t.len().min(200)].to_string() } Err(e) => format!("{:?}", e) }), replay: json!({"property": prop, "module": "codec", "value": text, "from_value": true}) }),
+                Err(_) => report.finding(Finding { kind: "violation", key: "from-value:in-scope".into(), description: format!("from_value::<Value>({}) panicked", &text[..text.len().min(200)]), replay: json!({"property": prop, "module": "codec", "value": text, "from_value": true}) }),
+            }
+        }
         if k % 5 == 0 {
             let mut tail = enc.clone();
             let extra: Vec<u8> = (0..rng.below(6)).map(|_| rng.next() as u8).collect();
@@ -890,6 +904,9 @@ pub fn main(opts: &Opts) {
         if bs.len() <= 12 {
             for chunk in 1..=bs.len().max(1) {
                 let (o, _) = dec_io(bs, chunk);
+                if let DecOut::Panic(m) = &o {
+                    report.finding(Finding { kind: "violation", key: "decode-panic:io-reader".into(), description: format!("decoding {} from a stream (chunks of {}) panicked or looped: {}", short(bs), chunk, m), replay: json!({"property": prop, "module": "codec", "bytes": hx(bs)}) });
+                }
                 if o != out {
                     report.finding(Finding { kind: "violation", key: "io-vs-slice:bytes".into(), description: format!("{}: slice reader {:?}, io reader (chunks of {}) {:?}", short(bs), out, chunk, o), replay: json!({"property": prop, "module": "codec", "bytes": hx(bs)}) });
                     break;
@@ -974,7 +991,7 @@ pub fn main(opts: &Opts) {
     // one module serves several properties: keep the findings that concern the one being checked
     let relevant = |key: &str| -> bool {
         let c03 = key.starts_with("roundtrip:") || key.starts_with("encode-");
-        let c20 = key.starts_with("size:") || key.starts_with("io-");
+        let c20 = key.starts_with("size:") || key.starts_with("io-") || key.starts_with("lazy:") || key.starts_with("to-value:") || key.starts_with("from-value:");
         let c04 = key.starts_with("decode-") || key.starts_with("redecode-");
         match prop.as_str() {
             "C03" => c03,
@@ -1045,6 +1062,16 @@ fn deep_nesting_probes(report: &mut Report, prop: &str) {
                 Err(e) => report.notes.push(format!("nesting probe could not be started: {}", e)),
             }
         }
+    }
+}
+
+fn contains_described(v: &Value) -> bool {
+    match v {
+        Value::Described(_) => true,
+        Value::List(l) => l.iter().any(contains_described),
+        Value::Array(a) => a.0.iter().any(contains_described),
+        Value::Map(m) => m.iter().any(|(k, x)| contains_described(k) || contains_described(x)),
+        _ => false,
     }
 }
 
